@@ -437,7 +437,16 @@ pub fn run_cli(root: &std::path::Path, cfg: &RunCfg) -> Option<i32> {
         }
         ModeS::Build => {}
     }
-    c.arg("-q").arg("-j").arg(cfg.k.max(1).to_string());
+    match cfg.console {
+        0 => {
+            c.arg("-q");
+        }
+        1 | 3 => {}
+        _ => {
+            c.arg("-v");
+        }
+    }
+    c.arg("-j").arg(cfg.k.max(1).to_string());
     if cfg.recursive {
         c.arg("-r");
     }
